@@ -6,7 +6,7 @@
   in Lemmas/RatScalar.lean).
 -/
 import RosuModel.Model.SliderEvents
-import RosuModel.Lemmas.RatScalar
+import RosuModel.Lemmas.EventLaws
 namespace Rosu.C20
 open Rosu Rosu.SliderEvents
 
@@ -358,5 +358,249 @@ theorem repeats_all_present (start dur vel td total : F) (n : Int) (buf : List (
   intro i hi
   have := List.mem_range.mp hi
   omega
+
+/-! ### closed forms of head, repeat, last tick, tail -/
+
+/-- **head_form**: the stream starts with the head at the start time, progress 0. -/
+theorem head_form (p : Params F) (ds : List F) :
+    (eventsOf p ds).head? =
+      some { kind := .head, spanIdx := 0, spanStartTime := p.startTime, time := p.startTime,
+             pathProgress := (0 : F) } := rfl
+
+/-- **repeat_form**: every span `s` with `0 ≤ s < span_count − 1` contributes, after its ticks, the repeat
+at the end of the span, `start + s·dur + dur`, with progress 1 after an even span and 0 after an odd one. -/
+theorem repeat_form (p : Params F) (ds : List F) (s : Nat) (hs : (s : Int) < p.spanCount - 1) :
+    (∃ pre post, eventsOf p ds = pre ++ spanEvents p ds s ++ post) ∧
+    (∃ ticks, spanEvents p ds s = ticks ++ [repeatEvent p s] ∧ ∀ e ∈ ticks, e.kind = .tick) ∧
+    repeatEvent p (s : Nat) =
+      { kind := .repeatPt, spanIdx := s,
+        spanStartTime := p.startTime + Scalar.ofInt s * p.spanDuration,
+        time := (p.startTime + Scalar.ofInt s * p.spanDuration) + p.spanDuration,
+        pathProgress := Scalar.ofInt (Int.tmod ((s : Int) + 1) 2) } := by
+  refine ⟨?_, ?_, rfl⟩
+  · have hlt : s < p.spanCount.toNat := by omega
+    obtain ⟨m, hm⟩ : ∃ m, p.spanCount.toNat = s + (m + 1) := ⟨p.spanCount.toNat - s - 1, by omega⟩
+    rw [eventsOf_eq_concat, hm, List.range_add, List.flatMap_append, List.range_succ_eq_map,
+      List.map_cons, List.flatMap_cons]
+    refine ⟨headEvent p :: (List.range s).flatMap (fun i => spanEvents p ds (i : Nat)), ?_, ?_⟩
+    rotate_left
+    · simp only [Nat.add_zero, List.cons_append, List.append_assoc]
+      rfl
+  · refine ⟨(if isReversed s then ds.reverse else ds).map (tickEvent p s), ?_, ?_⟩
+    · simp [spanEvents, hs]
+    · intro e he
+      obtain ⟨d, _, rfl⟩ := List.mem_map.mp he
+      rfl
+
+/-- **last_tick_form**: the last-but-one event is the legacy last tick of the final span, at the later of
+the half-way time and 36 ms before the end; its progress is its time within the final span, mirrored when
+the span count is even. -/
+theorem last_tick_form (p : Params F) (ds : List F) :
+    (eventsOf p ds).dropLast.getLast? =
+      some (
+        let finalStart := p.startTime + Scalar.ofInt (p.spanCount - 1) * p.spanDuration
+        let time := Scalar.max (p.startTime + Scalar.ofInt p.spanCount * p.spanDuration / (2 : F))
+                      ((finalStart + p.spanDuration) + -(36 : F))
+        let inSpan := (time - finalStart) / p.spanDuration
+        { kind := .lastTick, spanIdx := p.spanCount - 1, spanStartTime := finalStart, time := time,
+          pathProgress := if Int.tmod p.spanCount 2 == 0 then (1 : F) - inSpan else inSpan }) := by
+  have : eventsOf p ds = (headEvent p :: spansFrom p ds 0 p.spanCount.toNat ++ [lastTickEvent p]) ++ [tailEvent p] := by
+    simp [eventsOf]
+  rw [this, List.dropLast_concat, List.getLast?_concat]
+  rfl
+
+/-- **tail_form**: the stream ends with the tail at `start + span_count·dur`, at the far end of the path
+iff the span count is odd. -/
+theorem tail_form (p : Params F) (ds : List F) :
+    (eventsOf p ds).getLast? =
+      some { kind := .tail, spanIdx := p.spanCount - 1,
+             spanStartTime := p.startTime + Scalar.ofInt (p.spanCount - 1) * p.spanDuration,
+             time := p.startTime + Scalar.ofInt p.spanCount * p.spanDuration,
+             pathProgress := Scalar.ofInt (Int.tmod p.spanCount 2) } := by
+  have : eventsOf p ds = (headEvent p :: spansFrom p ds 0 p.spanCount.toNat ++ [lastTickEvent p]) ++ [tailEvent p] := by
+    simp [eventsOf]
+  rw [this, List.getLast?_concat]
+  rfl
+
+/-! ### ticks -/
+
+/-- the tick events of a span. -/
+def spanTicks (p : Params F) (ds : List F) (s : Int) : List (SliderEvent F) :=
+  (spanEvents p ds s).filter (fun e => e.kind == .tick)
+
+theorem spanTicks_eq (p : Params F) (ds : List F) (s : Int) :
+    spanTicks p ds s = (if isReversed s then ds.reverse else ds).map (tickEvent p s) := by
+  unfold spanTicks spanEvents
+  rw [List.filter_append]
+  have h1 : ∀ l : List F, (l.map (tickEvent p s)).filter (fun e => e.kind == .tick) = l.map (tickEvent p s) := by
+    intro l
+    apply List.filter_eq_self.mpr
+    intro e he
+    obtain ⟨d, _, rfl⟩ := List.mem_map.mp he
+    rfl
+  rw [h1]
+  by_cases hw : s < p.spanCount - 1 <;> simp [hw, repeatEvent, newRepeatPoint]
+
+/-- a list read in the direction of the path: reversed on odd spans. -/
+def pathOrder {α : Type} (s : Int) (l : List α) : List α := if isReversed s then l.reverse else l
+
+/-- **same_ticks_every_span**: read along the path, the tick progress values of any span are the same list
+`ds.map (· / len)` — identical placement on every span (structural: the same arithmetic loop runs for each span). -/
+theorem same_ticks_every_span (p : Params F) (ds : List F) (s : Int) :
+    pathOrder s ((spanTicks p ds s).map (·.pathProgress)) = ds.map (· / p.len) := by
+  rw [spanTicks_eq]
+  unfold pathOrder
+  by_cases hr : isReversed s = true <;>
+    simp [hr, tickEvent, mkTick, List.map_reverse, Function.comp_def]
+
+/-- **ticks_mirrored_on_odd_spans**: a tick's time is its span's start plus (progress × span duration) on even
+spans and plus ((1 − progress) × span duration) on odd spans; it carries the index and start time of its span. -/
+theorem ticks_mirrored_on_odd_spans (p : Params F) (ds : List F) (s : Int) (e : SliderEvent F)
+    (he : e ∈ spanTicks p ds s) :
+    e.spanIdx = s ∧ e.spanStartTime = p.startTime + Scalar.ofInt s * p.spanDuration ∧
+    e.time = e.spanStartTime +
+      (if Int.tmod s 2 == 1 then (1 : F) - e.pathProgress else e.pathProgress) * p.spanDuration := by
+  rw [spanTicks_eq] at he
+  obtain ⟨d, _, rfl⟩ := List.mem_map.mp he
+  exact ⟨rfl, rfl, rfl⟩
+
+theorem tickDists_guard (p : Params F) :
+    ∀ (fuel : Nat) (d : F) (ds : List F), tickDists p fuel d = some ds →
+      ∀ x ∈ ds, Scalar.le x p.len = true ∧ Scalar.ge x (p.len - p.minDistFromEnd) = false
+  | 0, _, _, h => by simp [tickDists] at h
+  | fuel + 1, d, ds, h => by
+    simp only [tickDists] at h
+    split at h
+    · rename_i hle
+      split at h
+      · cases h; simp
+      · rename_i hge
+        cases hrec : tickDists p fuel (d + p.tickDist) with
+        | none => simp [hrec] at h
+        | some ds' =>
+          simp only [hrec, Option.map_some, Option.some.injEq] at h
+          subst h
+          intro x hx
+          rcases List.mem_cons.mp hx with rfl | hx
+          · exact ⟨hle, by simpa using hge⟩
+          · exact tickDists_guard p fuel _ ds' hrec x hx
+    · cases h; simp
+
+/-- **ticks_respect_min_distance** (as the code tests it): every tick distance passed both guards of the loop,
+`d <= len` and not `d >= len − 10·velocity`. -/
+theorem ticks_respect_min_distance (p : Params F) (fuel : Nat) (ds : List F)
+    (h : spanTickDists p fuel = some ds) :
+    ∀ d ∈ ds, Scalar.le d p.len = true ∧ Scalar.ge d (p.len - p.minDistFromEnd) = false := by
+  unfold spanTickDists at h
+  split at h
+  · exact tickDists_guard p fuel _ ds h
+  · cases h; simp
+
+/-! ## Part 2 — law-dependent (exact arithmetic; see Lemmas/EventLaws.lean) -/
+
+/-- `d`, `d + t`, `(d + t) + t`, …: what the loop variable holds in turn `i` (structural). -/
+def iterAdd (t : F) : Nat → F → F
+  | 0, d => d
+  | i + 1, d => iterAdd t i (d + t)
+
+/-- structural: the `i`-th tick distance is the start value plus `i` additions of `tick_dist`. -/
+theorem tickDists_getElem (p : Params F) :
+    ∀ (fuel : Nat) (d : F) (ds : List F), tickDists p fuel d = some ds →
+      ∀ (i : Nat) (h : i < ds.length), ds[i] = iterAdd p.tickDist i d
+  | 0, _, _, h => by simp [tickDists] at h
+  | fuel + 1, d, ds, h => by
+    simp only [tickDists] at h
+    split at h
+    · split at h
+      · cases h; intro i hi; simp at hi
+      · cases hrec : tickDists p fuel (d + p.tickDist) with
+        | none => simp [hrec] at h
+        | some ds' =>
+          simp only [hrec, Option.map_some, Option.some.injEq] at h
+          subst h
+          intro i hi
+          cases i with
+          | zero => rfl
+          | succ i =>
+            simp only [List.getElem_cons_succ, iterAdd]
+            exact tickDists_getElem p fuel _ ds' hrec i (by simpa using hi)
+    · cases h; intro i hi; simp at hi
+
+theorem iterAdd_multiple (L : OrderedFieldLaws F) (t : F) :
+    ∀ (i k : Nat), iterAdd t i (Scalar.ofNat k * t) = Scalar.ofNat (k + i) * t
+  | 0, _ => rfl
+  | i + 1, k => by
+    have hstep : (Scalar.ofNat k * t + t : F) = Scalar.ofNat (k + 1) * t := by
+      rw [L.ofNat_succ, L.add_mul, L.one_mul]
+    rw [iterAdd, hstep, iterAdd_multiple L t i (k + 1)]
+    congr 2
+    omega
+
+/-- **ticks_at_multiples** (exact arithmetic): the `i`-th tick distance of a span is `(i+1)·tick_dist`,
+hence (by `same_ticks_every_span`) its path progress is `(i+1)·tick_dist / len` on every span. -/
+theorem ticks_at_multiples (L : OrderedFieldLaws F) (p : Params F) (fuel : Nat) (ds : List F)
+    (h : spanTickDists p fuel = some ds) (i : Nat) (hi : i < ds.length) :
+    ds[i] = Scalar.ofNat (i + 1) * p.tickDist ∧
+    ∀ s : Int, ∃ hi' : i < (pathOrder s ((spanTicks p ds s).map (·.pathProgress))).length,
+      (pathOrder s ((spanTicks p ds s).map (·.pathProgress)))[i] =
+        Scalar.ofNat (i + 1) * p.tickDist / p.len := by
+  have hd : ds[i] = Scalar.ofNat (i + 1) * p.tickDist := by
+    unfold spanTickDists at h
+    split at h
+    · rw [tickDists_getElem p fuel _ ds h i hi]
+      have h1 : Scalar.ofNat 1 * p.tickDist = p.tickDist := L.one_mul _
+      have := iterAdd_multiple L p.tickDist i 1
+      rw [h1, Nat.add_comm] at this
+      exact this
+    · cases h; simp at hi
+  refine ⟨hd, fun s => ?_⟩
+  have hs := same_ticks_every_span p ds s
+  refine ⟨by rw [hs]; simpa using hi, ?_⟩
+  simp only [hs, List.getElem_map, hd]
+
+/-- **ticks_respect_min_distance_strict** (needs a total order, i.e. no NaN): every tick distance is
+strictly less than `len − 10·velocity`. -/
+theorem ticks_respect_min_distance_strict (L : OrderedFieldLaws F) (p : Params F) (fuel : Nat)
+    (ds : List F) (h : spanTickDists p fuel = some ds) :
+    ∀ d ∈ ds, Scalar.lt d (p.len - p.minDistFromEnd) = true := by
+  intro d hd
+  have := (ticks_respect_min_distance p fuel ds h d hd).2
+  exact L.lt_of_not_le _ _ this
+
+theorem tickDists_fuel (L : OrderedFieldLaws F) (p : Params F) (m : Nat)
+    (hm : Scalar.lt p.len (Scalar.ofNat m * p.tickDist) = true) :
+    ∀ (fuel k : Nat), k + fuel = m + 1 → 1 ≤ fuel →
+      ∃ ds, tickDists p fuel (Scalar.ofNat k * p.tickDist) = some ds
+  | 0, _, _, h1 => by omega
+  | fuel + 1, k, hk, _ => by
+    rw [tickDists]
+    split
+    · rename_i hle
+      split
+      · exact ⟨[], rfl⟩
+      · have hstep : (Scalar.ofNat k * p.tickDist + p.tickDist : F) = Scalar.ofNat (k + 1) * p.tickDist := by
+          rw [L.ofNat_succ, L.add_mul, L.one_mul]
+        rw [hstep]
+        by_cases hf : fuel = 0
+        · have : k = m := by omega
+          subst this
+          rw [L.not_le_of_lt _ _ hm] at hle
+          cases hle
+        · obtain ⟨ds, hds⟩ := tickDists_fuel L p m hm fuel (k + 1) (by omega) (by omega)
+          exact ⟨_, by rw [hds]; rfl⟩
+    · exact ⟨[], rfl⟩
+
+/-- **ticks_fuel_suffices** (exact arithmetic): if `len < n·tick_dist` for some `n ≥ 1`, fuel `n` is enough
+for the `while` loop — the model then yields a stream (`stream_shape`), never `fuel-exhausted`. -/
+theorem ticks_fuel_suffices (L : OrderedFieldLaws F) (p : Params F) (n : Nat) (hn : 1 ≤ n)
+    (hlen : Scalar.lt p.len (Scalar.ofNat n * p.tickDist) = true) :
+    ∃ ds, spanTickDists p n = some ds := by
+  unfold spanTickDists
+  split
+  · have h1 : p.tickDist = Scalar.ofNat 1 * p.tickDist := (L.one_mul _).symm
+    have := tickDists_fuel L p n hlen n 1 (by omega) hn
+    rw [← h1] at this
+    exact this
+  · exact ⟨[], rfl⟩
 
 end Rosu.C20
